@@ -38,6 +38,8 @@ def make_files(rng, nfiles, tier, wd, max_links=4, enc_pool=12, small=False, all
                     goffs.append(0)
             if d is None:
                 ser = rng.choice([5000, 5000, 0x7fff0000, 0x80000000, 0xfff00000]) + (k * 10 + li) % 60000
+                if rng.chance(1, 10) and 0xffffffff not in serials:
+                    ser = 0xffffffff          # the all-ones serial number (-1 as a signed 32-bit value)
                 while (ser & 0xffffffff) in serials:
                     ser += 100003
                 serials.add(ser & 0xffffffff)
